@@ -49,6 +49,7 @@ type compCase struct {
 	NQ       int    `json:"n_queries"`
 	Sockets  bool   `json:"sockets"`
 	UpTo     int    `json:"up_to_query"`
+	Burst    bool   `json:"concurrent_phase,omitempty"` // also run the concurrent real-socket rounds
 
 	// for the reader (regenerated from the seed on replay)
 	Comp     *Comp    `json:"composition,omitempty"`
@@ -368,6 +369,18 @@ func runComp(seed int64, cc compCase, replay bool) {
 			}
 		}
 	}
+	if cc.Burst && cc.UpTo < 0 {
+		reps := 1
+		if replay {
+			reps = 10 // schedule dependent
+		}
+		for i := 0; i < reps; i++ {
+			b.burstPhase(seed+int64(i), cc, rep.Pick(3, 5), rep.Pick(1, 2), rep.Pick(1, 2))
+		}
+		if replay {
+			fmt.Printf("replayed the concurrent phase of composition %d %d times\n", c.Idx, reps)
+		}
+	}
 	b.rt.mu.Lock()
 	herr := append([]string(nil), b.rt.harnErr...)
 	b.rt.mu.Unlock()
@@ -419,7 +432,7 @@ func main() {
 	})
 	rep = evid.New("C03", "exploration")
 	caselog = evid.OpenCaseLog()
-	rep.SetRule("compositions of the built-in plugins are generated from the seed as configuration data (sequence rule text with jump/goto/fallback sub-sequences over cache, redirect, hosts, black_hole, arbitrary, reject, ttl, ecs, ecs_handler, forward_edns0opt, prefer_ipv4/6, drop_resp and matchers) and built by coremain.NewMosdns; each ends in an echoing upstream (harness terminal plugin or real forward to a loopback echo server) whose scripted outcome (answer of 0..65535 bytes, rcode, none, error) is a function of the question name; each composition receives a generated stream of wire-level client messages (fresh / repeated questions, ID classes, re-cased and special names, all AA TC RD RA Z AD CD x opcode combinations, OPT variants, malformed section counts) via EntryHandler.Handle (UDP/TCP/DoH calling conventions) and via real loopback UDP/TCP/DoH sockets. A case is non-trivial when a verdict was reached for it; distinct = distinct (composition shape, outcome class, transport, truncated?, cache-hit?) tuple.")
+	rep.SetRule("compositions of the built-in plugins are generated from the seed as configuration data (sequence rule text with jump/goto/fallback sub-sequences over cache, redirect, hosts, black_hole, arbitrary, reject, ttl, ecs, ecs_handler, forward_edns0opt, prefer_ipv4/6, drop_resp and matchers) and built by coremain.NewMosdns; each ends in an echoing upstream (harness terminal plugin or real forward to a loopback echo server) whose scripted outcome (answer of 0..65535 bytes, rcode, none, error) is a function of the question name; each composition receives a generated stream of wire-level client messages (fresh / repeated questions, ID classes, re-cased and special names, all AA TC RD RA Z AD CD x opcode combinations, OPT variants, malformed section counts) via EntryHandler.Handle (UDP/TCP/DoH calling conventions) and via real loopback UDP/TCP/DoH sockets, sequentially and - for every fourth composition - in a concurrent phase (4-8 UDP client sockets firing back-to-back bursts, pipelined queries per TCP connection, concurrent DoH requests; unique question per query, chain outcome keyed by that question). A case is non-trivial when a verdict was reached for it; distinct = distinct (composition shape, outcome class, transport, truncated?, cache-hit?) tuple.")
 	rep.Assume("lib/wire parses replies correctly (independent of miekg/dns; unit-tested)")
 	rep.Assume("the recorder's snapshot of qCtx.R() taken when the entry executable returns is the plugins' answer")
 	rep.Assume("loopback sockets neither lose nor duplicate datagrams/segments; 'none other' is judged within a settle window after the handler is known to have returned")
@@ -472,7 +485,7 @@ func main() {
 		}()
 	}
 	for idx := 0; idx < nComp; idx++ {
-		cc := compCase{CompIdx: idx, Terminal: terminalFor(idx), NQ: nQ, Sockets: idx%4 == 0, UpTo: -1}
+		cc := compCase{CompIdx: idx, Terminal: terminalFor(idx), NQ: nQ, Sockets: idx%4 == 0, Burst: idx%4 == 0, UpTo: -1}
 		if cc.Terminal != "echo" {
 			cc.NQ = nQ / 3
 		}
@@ -509,7 +522,8 @@ func main() {
 	for _, need := range []string{"class_servfail", "class_refused", "class_answer", "truncated_replies", "cache_hits",
 		"redirected_queries", "malformed_queries_without_reply", "deliveries_udp", "deliveries_tcp", "deliveries_doh-get",
 		"deliveries_doh-post", "deliveries_h-udp", "deliveries_h-tcp", "deliveries_h-doh", "udp_replies_over_512",
-		"loopback_upstream_udp_queries", "loopback_upstream_tcp_queries", "extended_rcode_answers"} {
+		"loopback_upstream_udp_queries", "loopback_upstream_tcp_queries", "extended_rcode_answers",
+		"deliveries_udp-burst", "deliveries_tcp-pipelined", "deliveries_doh-concurrent"} {
 		if rep.Get(need) == 0 {
 			rep.Inconclusive("monitor counter %s is zero: that part of the property was not exercised", need)
 		}
